@@ -1,4 +1,7 @@
 import PqModel.ThriftDecodeProofs
+import PqModel.ThriftDecodeAlloc
+import PqModel.ThriftDecodeFuel
+import PqModel.ThriftDecodeCut
 import PqModel.Props.C14Footer
 
 /-! C14, the TYPED footer decoder (`PqModel.ThriftDecode`: MIRROR of `structDecoder.decode`,
@@ -215,11 +218,49 @@ theorem announced_list_size_not_bounded :
     decStruct none miniMeta d = .error (.sk .ueof) := by
   decide
 
--- OPEN (accepted_alloc_bounded): for every input the decoder ACCEPTS, every announced size it allocated
--- is at most the number of input bytes (`decT none … = .ok q → decT (some d.length) … = .ok q`): each
--- element consumes at least one byte (`ThriftSkipFuel.item_prog` through `decT_walk`). Not proved here.
--- OPEN (typed_never_out_of_fuel): that `fuelD d` is never exhausted by `decStruct` is not proved (the
--- walk's analogue is `walk_never_out_of_fuel`); `typed_cut_never_accepted` is stated at every fuel for
--- that reason, and the L2 sub-check fails on an answer `fuel`.
+/-- **accepted_alloc_bounded.** The positive half: on every input the decoder ACCEPTS, every list size
+it handed to the allocator was at most the number of input bytes (each element consumes at least one byte),
+so the run under an allocator bounded by `d.length` elements per slice is the same accepting run. The
+unbounded allocation is confined to inputs that are then rejected. -/
+theorem accepted_alloc_bounded (fs : List FieldD) (d : Bytes) (e : Nat)
+    (h : decStruct none fs d = .ok e) : decStruct (some d.length) fs d = .ok e :=
+  decT_alloc d _ _ 0 e h
+
+/-! ## the model's fuel, and the class of the error of a cut -/
+
+/-- **typed_never_out_of_fuel.** The fuel of the mirror is never exhausted: `decStruct`'s answer is that of
+the unbounded recursion of the Go code, for every schema, input and allocator. -/
+theorem typed_never_out_of_fuel (mem : Option Nat) (fs : List FieldD) (d : Bytes) :
+    decStruct mem fs d ≠ .error (.sk .fuel) := decStruct_nofuel mem fs d
+
+/-- more fuel changes nothing -/
+theorem typed_fuel_irrelevant (mem : Option Nat) (fs : List FieldD) (d : Bytes) (f : Nat) (h : fuelD d ≤ f) :
+    decT mem d f (.fields fs true 0 []) 0 = decStruct mem fs d := decStruct_eq_of_fuel mem fs d f h
+
+theorem fuelD_take (d : Bytes) (m : Nat) : fuelD (d.take m) ≤ fuelD d := by
+  unfold fuelD fuelFor; rw [List.length_take]; omega
+
+/-- **typed_cut_eof.** The cut of an accepted struct is rejected with io.EOF or io.ErrUnexpectedEOF and
+nothing else: the cut run reads the same bytes and takes the same branches up to the cut, so neither the
+required-field check (it runs at STOP only) nor a range check nor the allocator can answer first. -/
+theorem typed_cut_eof (mem : Option Nat) (fs : List FieldD) (d : Bytes) (e m : Nat)
+    (h : decStruct mem fs d = .ok e) (hm : m < e) :
+    decStruct mem fs (d.take m) = .error (.sk .eof) ∨ decStruct mem fs (d.take m) = .error (.sk .ueof) := by
+  obtain ⟨err, h4, hc⟩ := ((decT_rel mem d m (fuelD d) _ 0 e h).2 (Nat.zero_le _)).2 hm
+  rw [decStruct_eq_of_fuel mem fs (d.take m) (fuelD d) (fuelD_take d m)] at h4
+  rcases hc with hc | hc <;> subst hc
+  · exact Or.inl h4
+  · exact Or.inr h4
+
+/-- **typed_cut_after.** A cut at or after the end of the struct changes nothing: the bytes that follow a
+struct play no part in its acceptance. -/
+theorem typed_cut_after (mem : Option Nat) (fs : List FieldD) (d : Bytes) (e m : Nat)
+    (h : decStruct mem fs d = .ok e) (hm : e ≤ m) : decStruct mem fs (d.take m) = .ok e := by
+  have h4 := ((decT_rel mem d m (fuelD d) _ 0 e h).2 (Nat.zero_le _)).1 hm
+  rw [decStruct_eq_of_fuel mem fs (d.take m) (fuelD d) (fuelD_take d m)] at h4
+  exact h4
+
+example : decStruct none miniMeta (miniFooter.take 5) = .error (.sk .ueof) := by decide
+example : decStruct none miniMeta (miniFooter ++ [7, 7]) = .ok miniFooter.length := by decide
 
 end PqModel.Props.C14TypedDecode
